@@ -8,6 +8,7 @@ import (
 	"os"
 	"reflect"
 	"sort"
+	"strings"
 	"sync"
 	"sync/atomic"
 	"time"
@@ -69,15 +70,15 @@ type Mismatch struct {
 }
 
 type stats struct {
-	Lines       int64            `json:"lines"`
-	Cases       int64            `json:"cases"`       // (case line, rendering) pairs
-	Evaluations int64            `json:"evaluations"` // engine calls compared
-	Nontrivial  int64            `json:"nontrivial"`  // comparisons whose expected reply is non-empty / non-default
-	DistinctNT  int              `json:"distinct_nontrivial"`
-	Mismatches  int64            `json:"mismatches"`
-	ByFail      map[string]int64 `json:"by_fail"`
+	Lines       int64             `json:"lines"`
+	Cases       int64             `json:"cases"`       // (case line, rendering) pairs
+	Evaluations int64             `json:"evaluations"` // engine calls compared
+	Nontrivial  int64             `json:"nontrivial"`  // comparisons whose expected reply is non-empty / non-default
+	DistinctNT  int               `json:"distinct_nontrivial"`
+	Mismatches  int64             `json:"mismatches"`
+	ByFail      map[string]int64  `json:"by_fail"`
 	Samples     []json.RawMessage `json:"samples"`
-	WallS       float64          `json:"wall_s"`
+	WallS       float64           `json:"wall_s"`
 }
 
 func renderings(mode string, line int) []xast.Opts {
@@ -96,6 +97,47 @@ func renderings(mode string, line int) []xast.Opts {
 		return []xast.Opts{a}
 	}
 	return []xast.Opts{f}
+}
+
+// unicodeVariants returns copies of an expression text in which the characters INSIDE string literals
+// are replaced by multi-byte characters (2, 3 and 4 bytes), so that byte-versus-character confusions
+// in the string functions are reached; texts without such literal characters have no variants.
+func unicodeVariants(text string) []string {
+	maps := []map[byte]string{
+		{'x': "\u00e9", 'y': "\u65e5", 'w': "\U0001d11e"},
+		{'a': "\u00e4", 'c': "\u00e7", '1': "\u0967"},
+	}
+	var out []string
+	for _, m := range maps {
+		var b strings.Builder
+		var q byte
+		changed := false
+		for i := 0; i < len(text); i++ {
+			ch := text[i]
+			if q == 0 {
+				if ch == '\'' || ch == '"' {
+					q = ch
+				}
+				b.WriteByte(ch)
+				continue
+			}
+			if ch == q {
+				q = 0
+				b.WriteByte(ch)
+				continue
+			}
+			if r, ok := m[ch]; ok {
+				b.WriteString(r)
+				changed = true
+			} else {
+				b.WriteByte(ch)
+			}
+		}
+		if changed {
+			out = append(out, b.String())
+		}
+	}
+	return out
 }
 
 func renderName(o xast.Opts) string {
@@ -195,14 +237,14 @@ func valueEqual(want *Value, got *Value) bool {
 }
 
 type worker struct {
-	mode   string
-	kind   string
-	st     *stats
-	mu     *sync.Mutex
-	out    *bufio.Writer
-	nt     map[string]struct{}
-	cur    atomic.Value // current case description for the watchdog
-	curAt  atomic.Int64
+	mode  string
+	kind  string
+	st    *stats
+	mu    *sync.Mutex
+	out   *bufio.Writer
+	nt    map[string]struct{}
+	cur   atomic.Value // current case description for the watchdog
+	curAt atomic.Int64
 }
 
 func (w *worker) report(m Mismatch) {
@@ -269,7 +311,7 @@ func (w *worker) runCase(line int, raw []byte) {
 			}
 			for ci, ctx := range ctxs {
 				var want struct {
-					Nodes []int           `json:"nodes"`
+					Nodes []int `json:"nodes"`
 					Ops   []int `json:"ops"` // flattened (code, from, to)
 				}
 				if err := json.Unmarshal(c.R[ci], &want); err != nil {
@@ -325,41 +367,48 @@ func (w *worker) runCase(line int, raw []byte) {
 			continue
 		}
 		if kind == "noerr" {
-			// C15: whatever Compile accepted must not fail with a Go runtime error
-			evals++
-			if co.Panic != "" {
-				w.report(Mismatch{Line: line, Kind: kind, Expr: text, Render: renderName(o), Fail: "compile-panic:" + co.Panic, Got: co, Via: "Compile", Case: raw})
-				continue
-			}
-			if err != nil || ex == nil {
-				atomic.AddInt64(&w.st.Cases, 1)
-				continue // rejected by Compile: fine
-			}
-			nontriv++
-			if len(localNT) == 0 {
-				localNT = append(localNT, text)
-			}
-			for _, ctx := range ctxs {
-				for _, via := range []string{"Select", "Evaluate"} {
-					ex2, _, _ := compile(text, c.Ns)
-					var got Outcome
-					if via == "Select" {
-						got = doSelect(ex2, c.D, ctx, plain)
-					} else {
-						got = doEvaluate(ex2, c.D, ctx, plain)
+			// C15: whatever Compile accepted must not fail with a Go runtime error.  Besides the text itself,
+			// variants whose string literals carry multi-byte characters (TLC cannot write non-ASCII strings)
+			for vi, vt := range append([]string{text}, unicodeVariants(text)...) {
+				if vi > 0 {
+					ex, err, co = compile(vt, c.Ns)
+				}
+				evals++
+				if co.Panic != "" {
+					w.report(Mismatch{Line: line, Kind: kind, Expr: vt, Render: renderName(o), Fail: "compile-panic:" + co.Panic, Got: co, Via: "Compile", Case: raw})
+					continue
+				}
+				if err != nil || ex == nil {
+					continue // rejected by Compile: fine
+				}
+				if vi == 0 {
+					nontriv++
+					if len(localNT) == 0 {
+						localNT = append(localNT, text)
 					}
-					evals++
-					fail := ""
-					switch {
-					case got.Panic != "" && got.Panic != "deliberate":
-						fail = "panic:" + got.Panic
-					case got.Typ != "":
-						fail = "type"
-					case got.Runaway:
-						fail = "runaway"
-					}
-					if fail != "" {
-						w.report(Mismatch{Line: line, Kind: kind, Expr: text, Render: renderName(o), Ctx: ctx, Fail: fail, Want: c.R[0], Got: got, Via: via, Case: raw})
+				}
+				for _, ctx := range ctxs {
+					for _, via := range []string{"Select", "Evaluate"} {
+						ex2, _, _ := compile(vt, c.Ns)
+						var got Outcome
+						if via == "Select" {
+							got = doSelect(ex2, c.D, ctx, plain)
+						} else {
+							got = doEvaluate(ex2, c.D, ctx, plain)
+						}
+						evals++
+						fail := ""
+						switch {
+						case got.Panic != "" && got.Panic != "deliberate":
+							fail = "panic:" + got.Panic
+						case got.Typ != "":
+							fail = "type"
+						case got.Runaway:
+							fail = "runaway"
+						}
+						if fail != "" {
+							w.report(Mismatch{Line: line, Kind: kind, Expr: vt, Render: renderName(o), Ctx: ctx, Fail: fail, Want: c.R[0], Got: got, Via: via, Case: raw})
+						}
 					}
 				}
 			}
